@@ -126,6 +126,7 @@ def rd_obl(n, start, tier, timeout=900, fixlen=None):
     where = "0" if start == 0 else "32768-%d" % (BLK - start)
     defs = {"VP_N": n, "VP_START": start, "VP_SLAB_SIZE": 64, "VP_SCRATCH": 64}
     name = "d.reader-arbitrary-at%s-N%d" % (where, n)
+    pay = n - 7 if fixlen is None else fixlen  # largest payload a header can announce inside the input
     if fixlen is not None:
         defs["VP_FIXLEN"] = fixlen
         name = "d.reader-chain-at%s-N%d-L%d" % (where, n, fixlen)
@@ -136,9 +137,9 @@ def rd_obl(n, start, tier, timeout=900, fixlen=None):
                # bounds = what the input size allows (payload <= n-7, <= n/7 physical records + a dropped
                # block + EOF per call); with unwind_is_violation a bound that is too small FAILS, never hides
                unwindset={"read_physical_record.0": 3, "ldb_reader_read_record.0": n // 7 + 3,
-                          "memcpy.0": max(2, n - 5), "ldb_crc32c_extend.0": max(3, n - 4),
-                          "vp_cksum_extend.0": max(3, n - 4),
-                          "vp_ref_next.0": max(2, n - 5), "vp_ref_next.1": max(2, n - 5), "vp_ref_next.2": n // 7 + 5},
+                          "memcpy.0": max(2, pay + 2), "ldb_crc32c_extend.0": max(3, pay + 3),
+                          "vp_cksum_extend.0": max(3, pay + 3),
+                          "vp_ref_next.0": max(2, pay + 2), "vp_ref_next.1": max(2, pay + 2), "vp_ref_next.2": n // 7 + 5},
                restrict_fp=["report_drop.function_pointer_call.1/vp_corruption"],
                unwind_is_violation=True,
                functions=["ldb_reader_init", "ldb_reader_read_record", "read_physical_record", "report_corruption",
@@ -157,7 +158,7 @@ for n, st in D_QUICK:
 for n in range(0, 25):
     if (n, 0) not in D_QUICK:
         OBLIGATIONS.append(rd_obl(n, 0, "thorough", timeout=1800))
-OBLIGATIONS.append(rd_obl(24, 0, "quick", fixlen=1))  # chains of 3 fragments (FIRST, bad/MIDDLE, LAST ...)
+OBLIGATIONS.append(rd_obl(24, 0, "thorough", timeout=3600, fixlen=1))  # chains of 3 fragments (FIRST, bad/MIDDLE, LAST ...)
 OBLIGATIONS.append(rd_obl(32, 0, "thorough", timeout=3600, fixlen=1))
 OBLIGATIONS.append(rd_obl(21, BLK - 14, "thorough", timeout=3600))  # FIRST, bad record | LAST in the next block
 for k in range(1, 15):
